@@ -422,6 +422,85 @@ def part_encode_loop(chk, fns, decls):
         hit = [(k, o) for k, o, c in bads if ev_bool(m, c)]
         chk.finding('encode-loop-' + (hit[0][0] if hit else '?'), f'the node / export loop of encode contradicts the graph (rule-level counterexample over the MIR; outcome {hit[0][1].kind if hit else None} {hit[0][1].site if hit else None})', {'rule': 'encode'})
 
+# ---------------------------------------------------------------------------- E. definition (type definitions are exported under their own name)
+
+def part_definition(chk, fns, decls):
+    """`definition(state, node)`: the type of the node is encoded by the encoder of its kind (or the index of an already exported aliased type is reused),
+    exported as a type under the node's export name, and the exported index is recorded for the type"""
+    wt = chk.decls('wac-types')
+    tkey = wt.find_enum(['component', 'Type'], 'Resource')[0]; tvars = [v[0] for v in wt.enums[tkey]]
+    kinds = [v[0] for v in wt.enums['ItemKind']]
+    vkey = wt.find_enum(['component', 'ValueType'], 'Defined')[0]; vvars = [v[0] for v in wt.enums[vkey]]
+    dkey = wt.find_enum(['component', 'DefinedType'], 'Alias')[0]; dvars = [v[0] for v in wt.enums[dkey]]
+    export_name = Lazy('export_name', 'std::string::String'); kind = Lazy('item_kind', 'ItemKind')
+    known_ty = Lazy('known.type', 'wac_types::Type'); known_idx = BitVec('known.type_index', 32)
+    def m_builder(ctx): return ctx.ret(Ref(Lazy('builder', 'ComponentBuilder'), ()))
+    def m_export(ctx): ctx.event('export', to_atom(ctx.eng, ctx.deref(ctx.args[1])).t, ctx.args[2], ctx.eng.term(ctx.args[3], 'u32')); return ctx.ret(BitVecVal(3000, 32))
+    def enc(which, idx):
+        def h(ctx): ctx.event('encode', which, ctx.deref(ctx.args[2])); return ctx.ret(BitVecVal(idx, 32))
+        return h
+    def m_types(ctx): return ctx.ret(Ref(Lazy('gtypes', 'Types'), ()))
+    def m_defined(ctx):
+        idv = ctx.deref(ctx.args[1]); return ctx.ret(Ref(Lazy(f'defined[{idv.name}]', 'DefinedType'), ()))
+    def m_desc(ctx): return ctx.ret(Opaque('desc'))
+    ov = [(r'^(?:encoding::)?State::builder$', m_builder), (r'ComponentBuilder::export$', m_export), (r'^(?:encoding::)?TypeEncoder::<.*>::new$', lambda ctx: ctx.ret(Opaque('type-encoder'))),
+          (r'^(?:encoding::)?TypeEncoder::<.*>::ty$', enc('ty', 501)), (r'^(?:encoding::)?TypeEncoder::<.*>::interface$', enc('interface', 502)), (r'^(?:encoding::)?TypeEncoder::<.*>::world$', enc('world', 503)),
+          (r'CompositionGraph::types$', m_types), (r'^<wac_types::Types as Index<(?:wac_types::)?DefinedTypeId>>::index$', m_defined), (r'^(?:wac_types::)?ItemKind::desc$', m_desc)]
+    eng = chk.engine(fns, decls, overrides=ov, loop_bound=4); eng.atom_strings = True
+    def eq_hook(a, b):
+        t = (a.ty or b.ty or '')
+        if 'Type' in t or t.endswith('Id') or t == '': return lazy_atom(a).t == lazy_atom(b).t
+        return None
+    eng.eq_hook = eq_hook
+    def eq_hook2(a, b):
+        # `Type::Value(*aliased)` built by the MIR, compared with a key of the type-index table: identity of the aliased value type
+        return c06.type_ident(a) == c06.type_ident(b) if (isinstance(a, Enum) or isinstance(b, Enum)) else None
+    eng.eq_hook2 = eq_hook2
+    fname = c03.encoder_fn(eng, 'definition')
+    so = [x for x, t in decls.structs['Scope'][1]]; sto = [x for x, t in decls.structs['State'][1]]; no = [x for x, t in decls.structs['Node'][1]]
+    scope = [Opaque('scope-field')] * len(so); scope[so.index('type_indexes')] = MapV(((known_ty, known_idx),))
+    sf = [Opaque('state-field')] * len(sto); sf[sto.index('current')] = Agg(scope, 'Scope'); sf[sto.index('scopes')] = VecV(())
+    st = engine.State(); scell = st.alloc(Agg(sf, 'State'))
+    nf = [Opaque('node-field')] * len(no); nf[no.index('item_kind')] = kind; nf[no.index('export')] = Enum('Option', bv64(1), {'None': (), 'Some': (export_name,)})
+    fn = eng.fns[fname]; fr = engine.Frame(fn)
+    for (loc, ty), a in zip(fn.params, [Ref(st.alloc(Agg((Ref(Lazy('graph', 'CompositionGraph'), ()),), 'CompositionGraphEncoder'))), Ref(scell), Ref(st.alloc(Agg(nf, 'Node')))]): fr.env[loc] = st.alloc(a)
+    ty = kind.kid('Type.0'); vt = ty.kid('Value.0'); did = vt.kid('Defined.0'); dsrc = Lazy(f'defined[{did.name}]', 'DefinedType'); aliased = dsrc.kid('Alias.0')
+    eng.assume(ULT(kind.disc, bv64(len(kinds)))); eng.assume(ULT(ty.disc, bv64(len(tvars)))); eng.assume(ULT(vt.disc, bv64(len(vvars)))); eng.assume(ULT(dsrc.disc, bv64(len(dvars)))); eng.assume(ULT(aliased.disc, bv64(len(vvars))))
+    st.frames = [fr]; eng.run(st); outs = eng.out; chk.account(eng, [fname])
+    base = list(eng.assumptions)
+    is_type = kind.disc == bv64(kinds.index('Type')); T = lambda v: ty.disc == bv64(tvars.index(v))
+    alias_of_defined = And(T('Value'), vt.disc == bv64(vvars.index('Defined')), dsrc.disc == bv64(dvars.index('Alias')), aliased.disc == bv64(vvars.index('Defined')))
+    reuse = And(alias_of_defined, c06.type_ident(aliased) == c06.type_ident(known_ty))
+    bads = []
+    for o in outs:
+        if o.kind == 'bound': continue
+        if o.kind != 'ret':
+            # documented panics: a node that is not a type, or a resource
+            bads.append(And(o.cond(), is_type, Not(T('Resource')))); continue
+        tr = o.st.trace; ex = [t for t in tr if t[0] == 'export']; en = [t for t in tr if t[0] == 'encode']
+        cs = [is_type, Not(T('Resource')), BoolVal(len(ex) == 1)]
+        if len(ex) == 1:
+            cs.append(ex[0][1] == lazy_atom(export_name).t)
+            k = ex[0][2]; k = eng.deref(o.st, k) if isinstance(k, Ref) else k
+            kname = list(k.vars)[0] if isinstance(k, Enum) and k.vars else (k.ty.split('::')[-1] if isinstance(k, Agg) and k.ty else str(k))
+            cs.append(BoolVal('Type' in str(kname)))
+            if not en:
+                cs.append(reuse); cs.append(ex[0][3] == known_idx)
+            else:
+                cs.append(BoolVal(len(en) == 1)); cs.append(Not(reuse))
+                which = en[0][1]
+                cs.append({'ty': Or(T('Func'), T('Value'), T('Module')), 'interface': T('Interface'), 'world': T('World')}[which])
+                cs.append(ex[0][3] == BitVecVal({'ty': 501, 'interface': 502, 'world': 503}[which], 32))
+            post = o.st.heap[scell].f[sto.index('current')].f[so.index('type_indexes')].entries
+            # the exported index is recorded for the defined type
+            cs.append(Or([And(c06.type_ident(k_) == c06.type_ident(ty), eng.term(v_, 'u32') == BitVecVal(3000, 32)) for k_, v_ in post] + [BoolVal(False)]))
+            cs.append(eng.term(o.value, 'u32') == BitVecVal(3000, 32))
+        bads.append(And(o.cond(), Not(And(cs))))
+    r, m = chk.obligation('definition: the type is encoded by the encoder of its kind (an alias of an already exported type reuses its index), exported as a type under the node\'s name, and the exported index is recorded',
+                          base + [Or(bads + [BoolVal(False)])], base=base)
+    if r == 'sat':
+        chk.finding('definition-emission', 'definition exports a type under the wrong name / kind / index or does not record the exported index (rule-level counterexample over the MIR)', {'rule': 'definition'})
+
 def body(chk):
     chk.assumptions += ['graph states satisfy the representation invariant of C06; the node -> encoded index table is arbitrary',
                         'every ComponentBuilder / NameMap / ComponentNameSection / TypeEncoder call is an event; the bytes wasm_encoder produces for them are NOT decided',
@@ -431,7 +510,7 @@ def body(chk):
     NN = chk.pick(3, 4)
     parts = [(f'instantiation{(i, j)}', part_instantiation, (fns, decls, (i, j))) for i, j in ([(0, 1), (1, 0), (1, 2)] if chk.quick else itertools.permutations(range(NN), 2))]
     parts += [(f'alias[{n}]', part_alias, (fns, decls, n)) for n in range(1, NN)]
-    parts += [('encode_names', part_names, (fns, decls)), ('encode loop', part_encode_loop, (fns, decls))]
+    parts += [('encode_names', part_names, (fns, decls)), ('encode loop', part_encode_loop, (fns, decls)), ('definition', part_definition, (fns, decls))]
     chk.parallel(parts)
 
 if __name__ == '__main__':
